@@ -838,6 +838,10 @@ class Table(Vector):
 			if len(value) != len(target_indices):
 				raise SerifValueError(f"Shape mismatch: expected {len(target_indices)} columns/items.")
 			
+			# The values may be this table's own live columns (t[:, ('a', 'b')] = [t.b, t.a]):
+			# take them as they are now, before the first column is written.
+			value = [v.copy() if isinstance(v, Vector) else v for v in value]
+
 			# Assume value[i] corresponds to target_indices[i]
 			for i, col_idx in enumerate(target_indices):
 				self._underlying[col_idx][row_spec] = value[i]
